@@ -140,6 +140,11 @@ func (t *Dense) Reshape(dims ...int) error {
 	if t.viewOf != 0 && t.o.IsNotContiguous() {
 		return errors.Errorf(methodNYI, "Reshape", "non-contiguous views")
 	}
+	if t.o.IsNotContiguous() && t.old.IsZero() {
+		// the clone of a non-contiguous view owns its storage but keeps the gaps: refused here, before the shape is touched
+		// (the sanity check after the fact refused it too, and left the new shape behind)
+		return errors.Errorf(methodNYI, "Reshape", "non-contiguous tensors")
+	}
 
 	if !t.old.IsZero() {
 		t.Transpose()
